@@ -308,8 +308,12 @@ func (its *PushPullHandler) processSubscribeOrCreate(code pushPullCase) errors.O
 			return its.createDatatype()
 		case caseUsedDUID, caseMatchKeyNotType: // the DUID or the key belongs to another datatype
 			return errors.PushPullDuplicateKey.New(its.ctx.L(), its.Key)
-		case caseAllMatchedNotSubscribed, caseAllMatchedSubscribed:
+		case caseAllMatchedNotSubscribed:
 			return its.subscribeDatatype()
+		case caseAllMatchedSubscribed:
+			if its.DUID != its.datatypeDoc.DUID { // a repeated subscribe; the creator repeating its request takes the normal path
+				return its.subscribeDatatype()
+			}
 		}
 	} else if its.gotOption.HasSubscribeBit() {
 		switch code {
